@@ -9,7 +9,7 @@ The cache key is the content hash of every file that can influence the objects (
 include/, build-system inputs, our cfg/ headers, the flags), so an edited source under /repo always
 reaches the check and an unchanged tree costs one hash pass (~50 ms).
 """
-import hashlib, os, subprocess, sys, shutil, time, glob
+import hashlib, os, subprocess, sys, shutil, time, glob, fcntl, contextlib
 from concurrent.futures import ThreadPoolExecutor
 
 VERIF = os.path.dirname(os.path.dirname(os.path.abspath(__file__)))
@@ -82,10 +82,21 @@ def _run(cmd):
     return r.returncode, r.stdout
 
 
-def _prune(prefix, keep=2):
+def _prune(prefix, keep=3):
     ds = sorted(glob.glob(os.path.join(BUILD, prefix + "-*")), key=os.path.getmtime, reverse=True)
     for d in ds[keep:]:
         shutil.rmtree(d, ignore_errors=True)
+
+
+@contextlib.contextmanager
+def _locked(name):
+    os.makedirs(BUILD, exist_ok=True)
+    with open(os.path.join(BUILD, ".lock-" + name), "w") as lf:
+        fcntl.flock(lf, fcntl.LOCK_EX)
+        try:
+            yield
+        finally:
+            fcntl.flock(lf, fcntl.LOCK_UN)
 
 
 def variant_spec(variant):
@@ -96,6 +107,11 @@ def variant_spec(variant):
 
 def lib(variant, cfgdir_override=None, extra_cflags=(), tag=None):
     """Build libcoap.a for `variant`; returns (dir, include flags)."""
+    with _locked("lib-" + (tag or variant)):
+        return _lib(variant, cfgdir_override, extra_cflags, tag)
+
+
+def _lib(variant, cfgdir_override=None, extra_cflags=(), tag=None):
     cc, cflags, cfg, _ = variant_spec(variant)
     cflags = list(cflags) + list(extra_cflags)
     cfgdir = cfgdir_override or os.path.join(VERIF, "cfg", cfg)
@@ -143,6 +159,12 @@ COMMON_SRCS = ["vx/vx.c"]
 def harness(variant, name, srcs, wraps=(), libs=("-lgnutls",), extra_cflags=(), lib_cflags=(),
             cfgdir_override=None, tag=None, defines=()):
     """Compile + link a harness executable against the variant's libcoap.a."""
+    with _locked("h-" + name + "-" + (tag or variant)):
+        return _harness(variant, name, srcs, wraps, libs, extra_cflags, lib_cflags, cfgdir_override, tag, defines)
+
+
+def _harness(variant, name, srcs, wraps=(), libs=("-lgnutls",), extra_cflags=(), lib_cflags=(),
+             cfgdir_override=None, tag=None, defines=()):
     cc, cflags, cfg, ldflags = variant_spec(variant)
     libdir, inc = lib(variant, cfgdir_override=cfgdir_override, extra_cflags=lib_cflags, tag=tag)
     srcs = [os.path.join(VERIF, s) for s in srcs]
@@ -159,7 +181,7 @@ def harness(variant, name, srcs, wraps=(), libs=("-lgnutls",), extra_cflags=(), 
         except OSError:
             pass
     t0 = time.time()
-    odir = os.path.join(libdir, "hobj-" + name)
+    odir = os.path.join(libdir, "hobj-%s-%d" % (name, os.getpid()))
     shutil.rmtree(odir, ignore_errors=True)
     os.makedirs(odir)
     base = [cc, "-std=gnu11", "-Wall", "-Wno-unused-function", "-Wno-deprecated-declarations", "-Wno-format-truncation"] + list(cflags) + \
